@@ -235,19 +235,27 @@ void TcpConnector::exitConnectingState()
 
 void TcpConnector::enterReconnectDelayState()
 {
+    //! the timer object exists and the state is kReconnectDelay before the user's function runs:
+    //! it may call stop(), cleanup() or start()
+    CHECK_DELETE_RESET_OBJ(sp_delay_ev_);
+    event::TimerEvent *delay_ev = wp_loop_->newTimerEvent("TcpConnector::sp_delay_ev_");
+    sp_delay_ev_ = delay_ev;
+    state_ = State::kReconnectDelay;
+
     //! 计算出要延时等待的时长
     ++cb_level_;
     int delay_sec = reconn_delay_calc_func_(conn_fail_times_);
     --cb_level_;
 
+    //! stopped (and maybe started again) by the function: this wait is over
+    if (state_ != State::kReconnectDelay || sp_delay_ev_ != delay_ev)
+        return;
+
     //! 创建定时器进行等待
-    CHECK_DELETE_RESET_OBJ(sp_delay_ev_);
-    sp_delay_ev_ = wp_loop_->newTimerEvent("TcpConnector::sp_delay_ev_");
     sp_delay_ev_->initialize(std::chrono::seconds(delay_sec), event::Event::Mode::kOneshot);
     sp_delay_ev_->setCallback(std::bind(&TcpConnector::onDelayTimeout, this));
     sp_delay_ev_->enable();
 
-    state_ = State::kReconnectDelay;
     LogDbg("enter reconnect delay state, delay: %d", delay_sec);
 }
 
